@@ -28,6 +28,12 @@ func init() {
 		Families: func(c *mon.Config) []mon.Family {
 			reps := c.Pick(6, 1000)
 			return []mon.Family{
+				{Name: "cold-start", N: 1, Serial: true, Run: func(w *mon.W, _ int) {
+					l := coldPick(coldBitmapCalls(), "Getw", "Join", "Slice")
+					if coldFirst(w, l) && coldLast(w, l) {
+						w.Bucket("cold-start")
+					}
+				}},
 				{Name: "join", Env: 4, N: len(c14Widths) * 131 * reps, Run: c14Join},
 				{Name: "slice-all", N: c.Pick(900, 150000), Run: c14SliceAll},
 				{Name: "slice-zoo", Env: 6, N: c.Pick(4000, 1000000), Run: c14SliceZoo},
